@@ -55,7 +55,14 @@ const WD: [&[(bool, usize, u64)]; 5] = [
     &[(false, 0, 9_000_000), (true, 1, 3), (false, 0, 4_000_000)],
     &[(false, 2, u64::MAX), (false, 2, 7)],
 ];
-const PR: [&[(usize, u64)]; 3] = [&[], &[(0, 100_000_000_000)], &[(1, 0x8000_0000_0000_0000), (0, 100_000_000_000)]];
+// 3, 4: two proposals whose deposits sum to exactly 2^64 (every total must be an error) and to 2^64 - 1
+const PR: [&[(usize, u64)]; 5] = [
+    &[],
+    &[(0, 100_000_000_000)],
+    &[(1, 0x8000_0000_0000_0000), (0, 100_000_000_000)],
+    &[(1, 0x8000_0000_0000_0000), (2, 0x8000_0000_0000_0000)],
+    &[(1, 0x8000_0000_0000_0000), (2, 0x7fff_ffff_ffff_ffff)],
+];
 
 fn helper_side(c: &Case, certs: &[CertSpec]) -> (Result<Coin, JsError>, Result<Value, JsError>) {
     let mut ins = TransactionInputs::new();
@@ -227,7 +234,7 @@ fn sc_certs(max_len: usize) -> impl Fn(&mut Ctx) + Sync {
                 seq.push(ctx.choose_free(certs.len()));
             }
             let wd = ctx.choose_free(WD.len());
-            let pr = ctx.choose_free(3);
+            let pr = ctx.choose_free(PR.len());
             let key_dep = *ctx.pick_free(&PARAMS);
             let pool_dep = *ctx.pick_free(&PARAMS);
             let c = Case { seq, wd, pr, key_dep, pool_dep };
@@ -331,7 +338,7 @@ pub fn scenario(name: &str, tier: Tier) -> Option<BoxedScenario> {
 pub fn run(tier: Tier, seed: u64) -> i32 {
     let mut rep = Report::new(P, tier, seed);
     let max_len = if tier.thorough() { 4 } else { 3 };
-    rep.rule = format!("all certificate sequences of length <= {} over 25 certificates (19 CDDL kinds, explicit/parameter amounts, key/script credentials) x 5 withdrawal maps (none, one, two, an account entered twice, an account entered twice with a first amount of 2^64-1) x 3 proposal lists x 5x5 (key_deposit, pool_deposit); distinct = distinct argument tuples", max_len);
+    rep.rule = format!("all certificate sequences of length <= {} over 25 certificates (19 CDDL kinds, explicit/parameter amounts, key/script credentials) x 5 withdrawal maps (none, one, two, an account entered twice, an account entered twice with a first amount of 2^64-1) x 5 proposal lists (none, one, two, two summing to exactly 2^64, two summing to 2^64-1) x 5x5 (key_deposit, pool_deposit); distinct = distinct argument tuples", max_len);
     rep.bound("max_sequence_length", json!(max_len));
     rep.assume("pool registrations are counted as first registrations (the helpers cannot see ledger state)");
     rep.assume("repeated certificates are one element (set semantics, checked separately by C16)");
